@@ -19,7 +19,8 @@ import (
 	"github.com/enbility/ship-go/zzverif/simrt"
 )
 
-var prop = flag.String("prop", "C08", "C08|C06")
+var prop = flag.String("prop", "C08", "C08|C06|C20")
+var only = flag.String("only", "", "ignored")
 
 type stack struct {
 	name string
@@ -486,6 +487,26 @@ func c06Scenarios(r *hx.Run) []hx.Scenario {
 
 func c06Main(r *hx.Run) {
 	scens := c06Scenarios(r)
+	if *prop == "C20" {
+		// the same executions in the access build with the race detector on: the application's writers, both pumps and the
+		// handshake goroutines of two complete stacks (the frame bytes handed to the socket included)
+		var rs []hx.Scenario
+		for _, sc := range scens {
+			if strings.HasPrefix(sc.Name, "c06:n=") {
+				body := sc.Body
+				sc.Name = "c20stack:" + strings.TrimPrefix(sc.Name, "c06:")
+				sc.Cfg.Races = true
+				sc.Body = func() {
+					body()
+					for _, rc := range simrt.Races() {
+						simrt.Fail("C20|"+rc.Key(), "data race on %s (%s): %s at %s  vs  %s at %s", rc.Loc, rc.KindAB, rc.A, rc.SiteA, rc.B, rc.SiteB)
+					}
+				}
+				rs = append(rs, sc)
+			}
+		}
+		scens = rs
+	}
 	if r.Worker {
 		hx.SWorker(scens)
 		return
@@ -494,6 +515,13 @@ func c06Main(r *hx.Run) {
 	sum := hx.ExploreAll(r, scens, true, 0)
 	if sum.Diverged > 0 {
 		hx.EngineError("replay divergence: %s", sum.FirstDiv)
+	}
+	if *prop == "C20" {
+		for k := range sum.Found {
+			if !strings.HasPrefix(k, "C20|") && !strings.HasPrefix(k, "panic|") && !hx.KeptKey(k) {
+				delete(sum.Found, k)
+			}
+		}
 	}
 	viol := hx.ConfirmViolations(sum, scens)
 	cov := sum.Coverage()
@@ -516,7 +544,7 @@ func main() {
 	switch *prop {
 	case "C08":
 		c08Main(r)
-	case "C06":
+	case "C06", "C20":
 		c06Main(r)
 	default:
 		hx.EngineError("unknown -prop")
